@@ -19,10 +19,17 @@ ENTRY = {
                   "statements are proved for the model with the two proposed fixes switched on, and concrete witnesses show the "
                   "violations for the code as it is. The model is tied to core/dutydb/memory.go by differential correspondence on "
                   "the real MemDB with a scripted deadliner and real eth2 objects (all four duty types), including the maps, "
-                  "per-slot indices and pending-query slices after every Store.",
-    "level_note": "Trusted: Lean kernel, the Go correspondence harness and line driver. Concurrency: every public method holds "
-                  "db.mu for its whole transition, so histories are sequences of atomic operations; the harness drives them "
-                  "sequentially with blocking queries in goroutines. Cloning (SSZ round trip) and hash-tree-roots are exercised "
+                  "per-slot indices and pending-query slices after every Store. Concurrency: about one op in seven of the stream "
+                  "is a race — 2-3 calls (Store||Store on overlapping keys, Store||Await registration, Store||cancel, a Store "
+                  "carrying an expiry || Await, PubKeyByAttestation||Store) released together by a start barrier on the real MemDB; "
+                  "it is accepted only if some sequential order of the atomic model operations reproduces every call's result, "
+                  "every answer and the final state (linearisability), and the unique-answer / conflict / prompt-await monitors "
+                  "are evaluated on it after all goroutines returned; theorem concurrent_batch_safe states that every such order "
+                  "satisfies the history-level statements.",
+    "level_note": "Trusted: Lean kernel, the Go correspondence harness and line driver. Concurrency: the theorems are about "
+                  "sequences of atomic operations; that each public method of MemDB is atomic (db.mu held from its first to its "
+                  "last access of the state) is NOT proved — it is tied only by the racing operations of the dutydb stream "
+                  "(sampling of real schedules, no exhaustive schedule exploration, no -race build). Cloning (SSZ round trip) and hash-tree-roots are exercised "
                   "on the real objects but modelled as identity / injective ids.",
     "trusted_base": [
         "model CharonV/Model/DutyDB.lean mirrors core/dutydb/memory.go (Store incl. early returns and the expiry loop, "
@@ -32,6 +39,9 @@ ENTRY = {
         "Go map iteration order over the UnsignedDataSet is an oracle: the harness observes the real order (through Clone()) "
         "and hands it to the model; the theorems hold for every order",
         "hook core/dutydb/verif_export.go (build tag verif): read-only snapshot of maps, indices and pending queries",
+        "atomicity of each public MemDB method (db.mu held throughout Store / Await* registration+resolve / "
+        "PubKeyByAttestation) — tied by the racing operations of the dutydb stream only: a concurrent execution on the real "
+        "MemDB is accepted iff some linearisation of the atomic model ops yields the observed results, answers and final state",
     ],
     "assumptions": [
         "the deadliner answers Add(d) with expired for every duty it has reported or declared expired (C16 late_add_refused); "
